@@ -568,12 +568,13 @@ def rule_expressible(ctx: Ctx, rep: Report) -> None:
 HF_SENSITIVE_MODULES = {"btclib.ecc.dsa", "btclib.ecc.ssa"}
 
 
-def rule_predicate_args(ctx: Ctx, rep: Report) -> None:
-    """C04.predicate_args: the predicate is asked with the hash function wherever
-    one is in scope, and a class that keeps a token decides its arm once."""
-    rule = "C04.predicate_args"
+def predicate_hf(ctx: Ctx, rep: Report, rule: str, only_module: str | None) -> None:
+    """Every dispatch site asks the predicate with the hash function in scope
+    (signature modules), or with None / sha256 where only arithmetic is delegated."""
     n = 0
     for fi in sorted(ctx.prog.functions.values(), key=lambda f: f.qualname):
+        if only_module is not None and fi.module.name != only_module:
+            continue
         calls = ctx.calls_to(fi, SERVES)
         if not calls or fi.qualname == SERVES:
             continue
@@ -599,6 +600,13 @@ def rule_predicate_args(ctx: Ctx, rep: Report) -> None:
                        f"a hash function is in scope but the predicate is asked with `{a1}`: the bindings would serve a hash they do not implement")
             else:
                 rep.ob(rule, f"{fi.qualname}:hf", a1 in ("None", "sha256", "hf", "self._hf"), fi.where(c), f"arithmetic-only delegation; asked with {a1}")
+
+
+def rule_predicate_args(ctx: Ctx, rep: Report) -> None:
+    """C04.predicate_args: the predicate is asked with the hash function wherever
+    one is in scope, and a class that keeps a token decides its arm once."""
+    rule = "C04.predicate_args"
+    predicate_hf(ctx, rep, rule, None)
     rep.floor(rule, 35)
     token_reask(ctx, rep, rule, None)
 
